@@ -388,4 +388,16 @@ example : xl_cell_to_rowcol "$AB$12".toList = .ok (11, 27) := by decide +kernel
 example : xl_range 0 0 0 0 = .ok "A1".toList := by decide +kernel
 example : xl_range 0 0 1 2 = .ok "A1:C2".toList := by decide +kernel
 
+/-- the tokenizer's `col_to_index` (translated from `parse_numbers_range` in tokenizer.py) inverts column naming: the name of
+    every column reads back as that column, and every non-empty upper-case word is the name of the column it reads as. -/
+theorem src_tokenizer_col_index_roundtrip (c : Nat) :
+    col_to_index (letters c) = .ok (c : Int) := by
+  rw [col_to_index_eq_model, C10.col_roundtrip]
+
+theorem src_tokenizer_col_index_name (s : List Char) (hne : s ≠ []) (hu : ∀ ch ∈ s, isUpper ch = true) :
+    ∃ i : Int, col_to_index s = .ok i ∧ 0 ≤ i ∧ letters i.toNat = s :=
+  ⟨_, col_to_index_eq_model s, C10.name_roundtrip s hne hu⟩
+
+example : col_to_index "AAA".toList = .ok 702 := by decide +kernel
+
 end NumbersModel.Props.C10.Src
